@@ -1,9 +1,24 @@
+"""C06 - TCP stream reassembly delivers exactly the sent byte stream."""
 from driver import Unit, Inst
-EXPLANATION = 'C06: TCP reassembly kernels decided symbolically (see DESIGN 5/C06)'
-BOUNDS = {'quick': 'seq_compare: all 2^64 pairs', 'thorough': 'seq_compare: all 2^64 pairs'}
-OUTSIDE = 'legacy TCPStream follower'
-ASSUMPTIONS = []
+EXPLANATION = ('(a) Internals::seq_compare for all 2^64 pairs: result in {-1,0,1}, zero exactly on equality, agrees with RFC 1982 below a distance of 2^31, antisymmetric, invariant under a common '
+               'shift (so any initial sequence number, including ones that wrap). (b) TCPIP::DataTracker (process_payload, store_payload, erase_iterator) on std::map / std::vector from the real '
+               'headers: k segments of a W-byte stream whose (offset,length) shapes and initial sequence number (8 values bracketing 0, 2^31 and 2^32) are enumerated concretely while the stream bytes are symbolic; after every '
+               'segment the delivered bytes, the delivery point, the buffered chunks and total_buffered_bytes are compared with a bitmap model.')
+BOUNDS = {'quick': 'seq_compare: all pairs; tracker: k=2 segments, every pair of shapes inside W=3 stream bytes (36 pairs) x ISN in {0xfffffffe, 0xffffffff, 0}, any stream bytes',
+          'thorough': 'tracker: k=2 with W=4 (100 pairs) x 8 ISNs'}
+OUTSIDE = 'the legacy TCPStream follower; Flow::process_packet callbacks; stale segments before the ISN; streams longer than W; more than 3 segments'
+ASSUMPTIONS = ['the four libstdc++.so red-black-tree primitives are engine/models/rbtree.c (a line-by-line C port of libstdc++ tree.cc)']
+NRAND = {'quick': 30, 'thorough': 100}
+def shapes(W): return [(o << 4) | l for o in range(W) for l in range(1, W - o + 1)]
 def units(tier):
-    return [Unit('seq', shim='seq.cpp')]
+    return [Unit('seq', shim='seq.cpp'), Unit('c06', shim='c06.cpp', models=['engine/models/rbtree.c'], ctors=False)]
 def instances(tier):
-    return [Inst('seq', f, timeout=60) for f in ('h_seq_compare_rfc1982', 'h_seq_compare_antisym', 'h_seq_compare_shift')]
+    out = [Inst('seq', f, timeout=60) for f in ('h_seq_compare_rfc1982', 'h_seq_compare_antisym', 'h_seq_compare_shift')]
+    if tier == 'quick': W, isns = 3, (5, 7, 0)
+    else: W, isns = 4, range(8)
+    for n in isns:
+        for a in shapes(W):
+            for b in shapes(W):
+                out.append(Inst('c06', 'h_c06_tracker2', params=(W | (n << 8), a, b), unwind=10, timeout=300, mem_gb=4,
+                                note='ISN #%d, segments (off,len) = (%d,%d) then (%d,%d) of a %d-byte stream' % (n, a >> 4, a & 15, b >> 4, b & 15, W)))
+    return out
